@@ -636,6 +636,46 @@ def sqfsdiff_stage(tools, work, rep, ev, tier, rng):
     return n
 
 
+def huge_sparse_case(work, rep, ev):
+    """a file of more than two million blocks (8.5 GiB of holes + 5 bytes at -b 4096): the quantifier's ">4 GiB via holes" at the smallest
+    block size.  Thorough tier only (the packer has to look at 8.5 GiB of zeros); the same list length is reached in the quick tier through
+    the inode serialiser directly (C03, InodeForm value class 'huge')."""
+    plain = build.build("plain") + "/bin"
+    d = work + "/huge_sparse"
+    os.makedirs(d, exist_ok=True)
+    src = d + "/holes.bin"
+    size = (17 << 29) + 5                      # 8.5 GiB + 5
+    with open(src, "wb") as f:
+        f.truncate(size - 5)
+        f.seek(size - 5)
+        f.write(b"hello")
+    open(d + "/p.txt", "w").write("file /big 0644 0 0 %s\n" % src)
+    img = d + "/o.sqfs"
+    rc, o, e = sh([plain + "/gensquashfs", "-q", "-f", "-b", "4096", "-c", "gzip", "-F", d + "/p.txt", img], timeout=1500)
+    if rc != 0:
+        rep.violation("pack-crash" if rc < 0 or rc >= 128 else "pack-refuses-valid", "gensquashfs -b 4096 on a %d byte file of holes (%d blocks): exit status %d %s"
+                      % (size, size // 4096 + 1, rc, e.decode(errors="replace")[-200:]))
+        return 1
+    p1 = subprocess.Popen([plain + "/rdsquashfs", "-c", "big", img], stdout=subprocess.PIPE)
+    h, n, last = hashlib.sha256(), 0, b""
+    zero = bytes(1 << 20)
+    ok = True
+    while True:
+        b = p1.stdout.read(1 << 20)
+        if not b:
+            break
+        n += len(b)
+        last = (last + b)[-5:]
+        if n <= size - 5 - (1 << 20) and b != zero[:len(b)]:
+            ok = False
+    p1.wait()
+    if p1.returncode != 0 or n != size or last != b"hello" or not ok:
+        rep.violation("fidelity-tree", "the %d byte file of holes packed with -b 4096 reads back as %d bytes ending in %r (reader exit %d)" % (size, n, last, p1.returncode))
+    ev.set("huge_sparse_file_blocks", size // 4096 + 1)
+    shutil.rmtree(d, ignore_errors=True)
+    return 1
+
+
 def run(tier):
     ev = Evidence(PID, tier, "exploration")
     rep = Reporter(PID, ev)
@@ -831,6 +871,8 @@ def run(tier):
                 if other:
                     rep.violation("reader-disagrees", "%s: %s" % (label, other[:2]))
     evaluations += listing_size_boundary(tools, work, rep, ev)
+    if tier != "quick":
+        evaluations += huge_sparse_case(work, rep, ev)
     ev.sample({"kind": "scenario-runs", "cases": ["%s -c %s %s" % (os.path.basename(j[0].dir), j[2], " ".join(j[1] + j[3])) for j in jobs[:8]]}, limit=6)
     # ---- unrepresentable inputs must be refused ----------------------------------------------------------
     s = gen.Scenario(work, "u_longname")
